@@ -136,6 +136,9 @@ def select_calls():
         "orderby": lambda q, Q: q.orderby(t.b, t.a),
         "limit": lambda q, Q: q.limit(5),
         "offset": lambda q, Q: q.offset(2),
+        # open-ended slices name one bound only: the other bound is another clause
+        "slice-from": lambda q, Q: q[4:],
+        "slice-to": lambda q, Q: q[:9],
         "with": lambda q, Q: q.with_(sub(Q), "c1"),
         # a second CTE whose body is a set operation (the library's notion of a recursive CTE), defined after a plain one
         "with-recursive": lambda q, Q: q.with_(Q.from_(u).select(u.id).union_all(Q.from_(u).select(u.id + 1).where(u.id < 5)), "r1"),
@@ -145,7 +148,7 @@ def select_calls():
     }
 
 
-SQLITE_OK = {"select", "distinct", "join", "where", "groupby", "having", "orderby", "limit", "offset", "with", "with-recursive"}
+SQLITE_OK = {"select", "distinct", "join", "where", "groupby", "having", "orderby", "limit", "offset", "with", "with-recursive", "slice-from", "slice-to"}
 
 
 def update_calls():
@@ -235,7 +238,7 @@ KINDS = {
     "drop": (lambda Q: Q.drop_table(tabs()[0]), lambda: {"if_exists": lambda q, Q: q.if_exists()}),
 }
 # calls that address the same clause (their relative order is part of the meaning)
-SAME_CLAUSE = [{"with", "with-recursive"}, {"set", "set2"}, {"insert", "insert2", "select"}, {"columns", "columns2", "as_select"}, {"columns", "columns-id", "columns-a"},
+SAME_CLAUSE = [{"limit", "slice-to"}, {"offset", "slice-from"}, {"with", "with-recursive"}, {"set", "set2"}, {"insert", "insert2", "select"}, {"columns", "columns2", "as_select"}, {"columns", "columns-id", "columns-a"},
                {"on_conflict", "do_update", "do_nothing", "where"}, {"limit", "offset"} - {"offset"}]
 # completeness: which call sets make the builder complete
 def complete(kind, calls):
